@@ -169,7 +169,7 @@ def run(ctx):
             seen_scripts.add(key)
             genuine = not faults_of(s)
             resign = any(e["op"] == "resign" for e in s)
-            n = (1 if (resign and quick) else per_genuine) if genuine else per_faulty
+            n = ((1 if quick else 4) if resign else per_genuine) if genuine else per_faulty
             # bit flips on every genuine script; on re-rendering scripts, in quick, only for hmac-sha256 with <= 2 renderings (declared cut)
             flip = genuine and (not resign or not quick or (s[0]["alg"] == "hmac-sha256" and s[0]["len"] <= 2))
             for j in range(n):
